@@ -38,12 +38,14 @@ Advance == /\ ~closed
            /\ g' = <<"ok", {}, "">>
            /\ last' = [op |-> "Advance"]
 
-Close == \E r \in AbsReqs(s, KR) :
+Close == \E r \in PlausibleReqs(s, KR) :
            LET w == WorldOf(s, r.allow)
-               q == JudgedReq(ConcReq(s, r))
+               c == ConcReq(s, r)
+               q == JudgedReq(c)
                o == ImplStep(w, q, [saturate |-> Saturate])
                fs == FailSets(w, q)
                must == MustRefuseF(fs) IN
+           /\ c.ok
            /\ closed' = (closed \/ o.ok)
            /\ g' = IF o.ok /\ must THEN <<"signed_must_refuse", MinFailF(fs), FeeNote(w, q)>> ELSE <<"ok", {}, "">>
            /\ last' = [op |-> "Close", r |-> r, ok |-> o.ok, tag |-> o.tag, must |-> must,
